@@ -6,6 +6,7 @@ set -u
 dir="$1"
 export GOFLAGS=-mod=mod GOPROXY=off GOSUMDB=off GOTOOLCHAIN=local
 demo="$dir/demo_test.go"
+[ -f "$demo" ] || demo="$dir/demo_test.go.txt"
 [ -f "$demo" ] || { echo "CONFIRM dir=$dir NO-DEMO"; exit 4; }
 pkgline=$(grep -m1 '^package ' "$demo" | awk '{print $2}')
 case "$pkgline" in
